@@ -67,6 +67,12 @@ class C01(Spec):
     def table_obligations(self, repo, tabs):
         return vocab_table_obligations(repo, tabs)
 
+    def standins(self, root, tier):
+        from pyvc import driver
+        r = driver.rt_call("pyvc.rt_kw", {"cmd": "suite_sanity", "root": root}, root, timeout=3000)
+        return [{"name": "spec-vs-official-suite", "scope": "the executable spec (spec/drafts.py, PyOps) on every reference-free, format-free case of the JSON-Schema-Test-Suite under /repo/json for drafts 3, 4, 6, 7 (%d skipped: $ref / format); checks OUR transcription of the drafts" % r["skipped"],
+                 "cases": r["tried"], "failures": r["failures"], "replay_kind": "kw", "label": "sanity of the specification layer (not about the code; not counted as proof)"}]
+
 
 class C03(Spec):
     pid = "C03"
@@ -87,15 +93,24 @@ class C03(Spec):
         from contracts import tasks_resolver
         return (tasks_keywords.keyword_tasks(root, _tmo(tier)) +
                 tasks_core.core_tasks(root, 2 * _tmo(tier), which=("iter_errors", "is_valid", "descend", "validate", "is_type")) +
-                tasks_resolver.resolver_tasks(root, 2 * _tmo(tier), which=("resolve_fragment", "resolve_from_url", "resolve", "ref_keyword")))
+                tasks_resolver.resolver_tasks(root, 2 * _tmo(tier), which=("resolve_fragment", "resolve_from_url", "resolve", "ref_keyword")) +
+                [t for t in __import__("contracts.tasks_entry", fromlist=["x"]).entry_tasks(root, _tmo(tier)) if t.which in ("relevance", "best_match", "module_validate")])
 
     def select(self, ob, r):
         if r["task"].startswith("validators:RefResolver.") and "/F/error" in ob["name"]:
             return True       # "only RefResolutionError escapes"
+        if r["task"].startswith("entry:relevance"):
+            return True
         return ob["kind"] in ("S", "P")
 
     def failure_kinds(self):
         return ("S",)
+
+    def standins(self, root, tier):
+        from pyvc import driver
+        r = driver.rt_call("pyvc.rt_entry", {"cmd": "search", "root": root, "crashes": True}, root, timeout=3000)
+        return [{"name": "entry-point-crash-sweep", "scope": "is_valid / iter_errors / validate / jsonschema.validate, with and without format checker, over 12 keywords x half of the value pool x a third of the instance pool x 4 drafts plus nested anyOf/oneOf/false-schema cases: any exception other than ValidationError, SchemaError, RefResolutionError, UnknownType",
+                 "cases": r["tried"], "failures": r["failures"], "replay_kind": "entry", "label": "bounded (not counted as proof)"}]
 
 
 def read_frame_obligations(repo, tabs):
